@@ -127,15 +127,23 @@ def posting_walk(ctx, cfg, profs_of, depth, tag, col):
     return model, cases, binary
 
 
-def run(ctx):
-    col = Collector(ctx)
-    model, cases, binary = posting_walk(ctx, ctx.pick("PostingAll8.cfg", "PostingAll10.cfg"), profiles_small, 3, "all", col)
-    # the binding is real: falsify one expectation and the adapter must object
-    probe = dict(cases[len(cases) // 2], id=0, corrupt=1)
-    pv = ctx.run_cases(binary, "walk", [probe], workers=1, name="selftest", timeout_ms=600000)
+def selftest_walk(ctx, binary, cases, col):
+    """The binding is real: falsify one expectation of a case that passed and the adapter must object."""
+    passed = sorted(col.passed)
+    if not passed:
+        ctx.note("self-test skipped: no case passed")
+        return
+    probe = dict(cases[passed[len(passed) // 2]], id=0, corrupt=1)
+    pv = ctx.run_cases(binary, "walk", [probe], workers=1, name="selftest", timeout_ms=900000)
     if pv[0].get("ok") or not isinstance(pv[0].get("obs"), list):
         raise Inconclusive("self-test: a falsified expectation was not noticed by the adapter: %r" % (pv[0].get("key"),))
     ctx.note("self-test: falsified expectation rejected (%s)" % pv[0].get("key"))
+
+
+def run(ctx):
+    col = Collector(ctx)
+    model, cases, binary = posting_walk(ctx, ctx.pick("PostingAll8.cfg", "PostingAll10.cfg"), profiles_small, 3, "all", col)
+    selftest_walk(ctx, binary, cases, col)
     posting_walk(ctx, ctx.pick("PostingDense1.cfg", "PostingDense2.cfg"), profiles_long, 2, "dense", col)
     full = next(c for c in cases if len(c["idx"]["t"]) >= 7 and c["profile"] == "exact64")
     ctx.sample({"list_ranks": full["idx"]["t"], "profile": full["profile"], "table": full["table"]})
